@@ -6,6 +6,7 @@
   not from unyt's table.
 -/
 import UnytModel.UfuncValue
+import UnytModel.Shape
 
 namespace Unyt.Ref.C04
 open Unyt.UV
@@ -144,13 +145,19 @@ def postMulRulesRef : List Rule := [.multiply, .divide]
     left-to-right quotient `a₀/a₁/…/aₙ₋₁` the power `1 − (n − 1) = 2 − n` -/
 def powerMapRef : List (String × (Int → Int)) := [("multiply", fun n => n), ("divide", fun n => 2 - n)]
 
-/-- how many numbers `ufunc.reduce(x, axis=…)` combines into each result: NumPy reduces along
-    the given axis, along axis 0 when none is given, and over the whole array for `axis=None` -/
-def reduceCountRef (shape : List Nat) (axisKw : AxisKw) : Nat :=
+/-- the shape of `ufunc.reduce(x, axis=…)` (NumPy reference, `ufunc.reduce`: "axis: … The default
+    (axis = 0) is perform a reduction over the first dimension of the input array"; the reduced
+    dimension is removed; `axis=None` reduces over all the axes and gives a 0-d result) -/
+def reduceResultShape (shape : Shape) (axisKw : AxisKw) : Shape :=
   match axisKw with
-  | .absent => shape.getD 0 1
-  | .idx a => shape.getD a 1
-  | .none => shape.foldl (· * ·) 1
+  | .absent => shape.eraseIdx 0
+  | .idx a => shape.eraseIdx a
+  | .none => []
+
+/-- how many numbers are combined into *each* element of the result: the elements of the input
+    shared out evenly over the elements of the result (`Shape.size`, the shape algebra of C16) -/
+def reduceCountRef (shape : Shape) (axisKw : AxisKw) : Nat :=
+  Shape.size shape / Shape.size (reduceResultShape shape axisKw)
 
 /-- the one rule swap the dispatcher makes: floor-division without a common unit is a quotient -/
 def ruleSwapsRef : List (Rule × Rule) := [(.floorDivide, .divide)]
